@@ -10,9 +10,12 @@ package gate
 
 import (
 	"fmt"
+	"os"
 	"strings"
+	"sync/atomic"
 	"testing"
 	"testing/synctest"
+	"time"
 
 	"github.com/refraction-networking/uquic/internal/verifharness/vh"
 )
@@ -81,6 +84,12 @@ func newRunner(r *vh.Rand) vh.Runner {
 			ps = append(ps, fmt.Sprintf("src=%d", r.Intn(4)), fmt.Sprintf("bit=%d", r.Intn(10000)))
 		}
 		rn.plan = append(rn.plan, strings.TrimSpace(fmt.Sprintf("inj %d after=%d delay=%d kind=%s seed=%d %s", i+1, after, delay, kind, r.U64()>>1, strings.Join(ps, " "))))
+	}
+	if retry && r.Chance(12) {
+		// an on-path attacker holds back the genuine Retry and forwards its token under a source connection ID
+		// of its own choice (valid integrity tag): only the retry_source_connection_id check can catch this
+		rn.plan = append(rn.plan, "fault s2c 0 drop 0",
+			fmt.Sprintf("inj %d after=0 delay=%d kind=retry seed=%d tag=valid scid=new ver=cur tok=stolen", ni+1, 25+r.Intn(15), r.U64()>>1))
 	}
 	rn.plan = append(rn.plan, "run")
 	return rn
@@ -154,6 +163,10 @@ func (rn *runner) Exec(op string) string {
 		}
 		rn.ran = true
 		sc := &scenario{spec: rn.spec, faults: rn.faults, injs: rn.injs, seed: rn.seed}
+		desc := fmt.Sprintf("%+v faults=%+v injs=%d", rn.spec, rn.faults, len(rn.injs))
+		running.Store(&desc)
+		runStart.Store(time.Now().UnixNano())
+		defer running.Store(nil)
 		synctest.Test(theT, func(t *testing.T) {
 			sc.t = t
 			rn.out = sc.run()
@@ -183,7 +196,27 @@ func (rn *runner) Exec(op string) string {
 	return "bad-op"
 }
 
+var (
+	running  atomic.Pointer[string]
+	runStart atomic.Int64
+)
+
+// A scenario runs in virtual time and normally takes milliseconds of real time. If one does not finish in
+// 90 s of REAL time the bubble is livelocked (e.g. a run loop that wakes at a passed deadline and never
+// closes): that is a hang of Dial in the sense of the property. The process is ended with a diagnostic so
+// that the check reports it instead of waiting for ever.
+func watchdog() {
+	for {
+		time.Sleep(2 * time.Second)
+		if d := running.Load(); d != nil && time.Now().UnixNano()-runStart.Load() > int64(90*time.Second) {
+			fmt.Fprintf(os.Stderr, "gate driver: scenario did not finish within 90 s of real time (virtual-time livelock, Dial hangs): %s\n", *d)
+			os.Exit(3)
+		}
+	}
+}
+
 func TestDriver(t *testing.T) {
 	theT = t
+	go watchdog()
 	vh.Main(t, "gate", newRunner)
 }
